@@ -96,6 +96,62 @@ Fixpoint py_dict_get {K A} (eqb : K -> K -> bool) (d : list (K * A)) (k : K) : r
   | (k', a) :: r => if eqb k k' then Ok a else py_dict_get eqb r k
   end.
 
+(** [l * n] (whole-list repetition) and an operand of an arithmetic operator that may be None (TypeError) *)
+Definition py_repeat {A} (l : list A) (n : nat) : list A := concat (repeat l n).
+Definition py_nat_o (o : option nat) : res nat := match o with Some n => Ok n | None => Err EType end.
+
+(** loops with [break] and [for .. else]: [BrkB] = left by break, [NextB] = iteration went on / the sequence was exhausted *)
+Inductive ctlb (R S : Type) := RetB (r : R) | NextB (s : S) | BrkB (s : S).
+Arguments RetB {R S} r.
+Arguments NextB {R S} s.
+Arguments BrkB {R S} s.
+Fixpoint py_for_b {A R S} (l : list A) (s : S) (body : A -> S -> res (ctlb R S)) : res (ctlb R S) :=
+  match l with
+  | [] => Ok (NextB s)
+  | x :: r => do c <- body x s;
+              match c with RetB v => Ok (RetB v) | BrkB s' => Ok (BrkB s') | NextB s' => py_for_b r s' body end
+  end.
+
+(** [py_the x]: x is known not to be None (branch of [x == e]); [py_some x]: a value that must be a tuple ([a, b = None] is TypeError) *)
+Definition py_the {A} (o : option A) : res A := match o with Some a => Ok a | None => Err ECrash end.
+Definition py_some {A} (o : option A) : res A := match o with Some a => Ok a | None => Err EType end.
+
+(** a variable first bound inside a loop, read after it: UnboundLocalError when the loop never bound it *)
+Definition py_unbound {A} (o : option A) : res A := match o with Some a => Ok a | None => Err ECrash end.
+
+(** [while cond: body] with an explicit bound on the number of iterations (ECrash when it does not suffice) *)
+Fixpoint py_while {R S} (fuel : nat) (s : S) (cond : S -> res bool) (body : S -> res (ctl R S)) : res (ctl R S) :=
+  do b <- cond s;
+  if b then
+    match fuel with
+    | 0 => Err ECrash
+    | S f => do c <- body s; match c with Ret v => Ok (Ret v) | Next s' => py_while f s' cond body end
+    end
+  else Ok (Next s).
+
+(** [l[i] = v] on a list *)
+Fixpoint list_set_nth {A} (n : nat) (v : A) (l : list A) : option (list A) :=
+  match l, n with
+  | [], _ => None
+  | _ :: r, 0 => Some (v :: r)
+  | x :: r, S j => option_map (cons x) (list_set_nth j v r)
+  end.
+Definition py_list_set {A} (l : list A) (i : bnd) (v : A) : res (list A) :=
+  let n := match i with BPos n => Some n | BNeg k => if (1 <=? k) && (k <=? length l) then Some (length l - k) else None end in
+  match n with
+  | Some j => match list_set_nth j v l with Some l' => Ok l' | None => Err EIndex end
+  | None => Err EIndex
+  end.
+
+(** [k in d] on a dict; [l[::step]] (step >= 1) *)
+Definition py_dict_has {K A} (eqb : K -> K -> bool) (d : list (K * A)) (k : K) : bool := existsb (fun kv => eqb k (fst kv)) d.
+Fixpoint py_every_fuel {A} (fuel stride : nat) (l : list A) : list A :=
+  match fuel with
+  | 0 => []
+  | S f => match l with [] => [] | x :: _ => x :: py_every_fuel f stride (skipn stride l) end
+  end.
+Definition py_every {A} (stride : nat) (l : list A) : list A := py_every_fuel (length l) stride l.
+
 (** * Part 2: lemmas *)
 
 Lemma pslice_pos {A} (a b : nat) (l : list A) :
